@@ -603,7 +603,14 @@ func (c *Ctx) havocTarget(s *State, env *Env, m Expr) {
 			for _, cp := range compsOf(et) {
 				name := "Elem|" + typeKey(et) + cp.Suffix
 				h := c.getHeap(s, name, ArrSort(SInt, ArrSort(SInt, cp.Sort)))
-				c.setHeap(s, name, Store(h, sl.Arr, c.freshConst("hvelems", ArrSort(SInt, cp.Sort))))
+				oldInner := Select(h, sl.Arr)
+				nv := c.freshConst("hvelems", ArrSort(SInt, cp.Sort))
+				// cells outside the slice's window [off, off+len) keep their contents
+				c.fresh++
+				j := fmt.Sprintf("j!%d", c.fresh)
+				s.assume(Term{fmt.Sprintf("(forall ((%s Int)) (=> (or (< %s %s) (>= %s (+ %s %s))) (= (select %s %s) (select %s %s))))",
+					j, j, sl.Off.S, j, sl.Off.S, sl.Len.S, nv.S, j, oldInner.S, j), SBool})
+				c.setHeap(s, name, Store(h, sl.Arr, nv))
 			}
 			return
 		}
